@@ -130,6 +130,56 @@ def expr_ratio(node, env=None, atom=None, depth=0):
     return Ratio.atom(leaf_text(node, env, atom, depth))
 
 
+DEEP_PURE = {"len", "int", "float", "str", "tuple", "list", "range", "abs", "min", "max", "sum", "sorted", "zip",
+             "enumerate", "np.array", "np.asarray", "np.prod", "np.arange", "np.unique", "np.argsort", "np.flip",
+             "np.flatnonzero", "np.sort", "os.path.join", "os.path.basename", "os.path.split", "os.path.dirname",
+             "os.path.normpath", "os.getcwd", "np.append", "np.concatenate"}   # allocations keep their name (identity matters)
+
+
+class _Deep(ast.NodeTransformer):
+    def __init__(self, env, bound, depth):
+        self.env, self.bound, self.depth = env, bound, depth
+
+    def visit_Name(self, n):
+        if not isinstance(n.ctx, ast.Load) or n.id in self.bound or self.depth > 25:
+            return n
+        v = self.env.get(n.id)
+        if isinstance(v, ast.Call) and norm(v.func) not in DEEP_PURE and not (
+                isinstance(v.func, ast.Attribute) and v.func.attr in ("split", "strip", "replace", "copy", "keys",
+                                                                      "values", "items", "decode", "encode")):
+            return n        # the result of a call into the package / an effectful call keeps its name
+        if isinstance(v, ast.AST) and not (isinstance(v, ast.Name) and v.id == n.id):
+            import copy as _copy
+            return _Deep(self.env, self.bound, self.depth + 1).visit(_copy.deepcopy(v))
+        return n
+
+    def _comp(self, n):
+        bound = set(self.bound)
+        for g in n.generators:
+            for x in ast.walk(g.target):
+                if isinstance(x, ast.Name):
+                    bound.add(x.id)
+        return _Deep(self.env, bound, self.depth).generic_visit(n)
+
+    visit_ListComp = visit_SetComp = visit_DictComp = visit_GeneratorExp = _comp
+
+    def visit_Lambda(self, n):
+        return n
+
+
+def deep(node, env, keep=()):
+    """normal text of an expression with every single-assignment local replaced by its defining expression,
+    recursively (locals bound more than once, loop variables and comprehension variables stay names).  Two
+    functions that differ only in which sub-expressions they name give the same deep text.  `keep`: names that
+    must stay (the function's parameters: a parameter that is re-bound has two definitions)."""
+    import copy as _copy
+    if node is None:
+        return None
+    t = _Deep(env or {}, set(keep), 0).visit(_copy.deepcopy(node))
+    ast.fix_missing_locations(t)
+    return norm(t)
+
+
 ARANGE = ("np.arange", "numpy.arange", "range")
 
 
